@@ -9,4 +9,4 @@ Extraction "../ocaml/C16/model.ml" Anchor.anchor Model.bN Model.Nb Model.encode 
   Model.decode_bytes_item Model.encode_to_bytes Model.decode_bytes Model.split Model.split_string
   Model.split_list Model.split_uint64 Model.count_values Model.no_tag Model.stream_decode_bytes
   Model.append_uint64 Model.int_size Model.list_size Model.list_iterator Model.stream_decode_all
-  Model.decode_all Model.s_script Model.new_stream Model.new_list_stream.
+  Model.decode_all Model.s_script Model.new_stream Model.new_list_stream Model.encode_via_buffer.
